@@ -2,6 +2,14 @@
 """Regenerates MANIFEST.json from the table below (kept as code so that the manifest is always valid)."""
 import json, subprocess
 CLAIMED = {
+ "C11": dict(technique="property-based testing: real liteclient connections against an independent in-process ADNL server with generated keys, packet sequences, TCP segmentation plans and single transit faults; differential frame parsing; one exhaustively enumerated fault/split grid",
+             text="Real liteclient.Connection objects (handshake, Send, Responses) and ParsePacket run against a reference ADNL server written from the protocol description: per connection a drawn server key, 1..40 packets in both directions with boundary sizes (thorough: the 8 MiB limit), a segmentation plan with cuts inside every frame field, and at most one fault (bit flip, byte substitution, truncation, resend) classified by frame and field. The server must receive exactly the client's payloads, the client must deliver exactly the intact frames before the first affected one and nothing else; one four-frame stream is enumerated over every split, bit flip, three substitutions per byte, truncation and resend. Sampling plus one exhaustive grid.",
+             note="Trusted: harness/internal/adnlsrv (no tongo imports; crypto/ecdh + math/big key conversion; TL ids computed as CRC32 of the schema text). Faulted cases wait a 200 ms quiet period; real time with slack.",
+             design="DESIGN.md section 4 C11"),
+ "C12": dict(technique="property-based concurrency testing: batches of scripted client/server scenarios under the race detector with history invariants (answer routing by F(q), deadlines, self-reconnect, goroutine count), schedule perturbation by GOMAXPROCS/yields",
+             text="Each case runs 4..8 scenarios in parallel: a real client with 1..4 connections and 1..64 caller goroutines against the reference server whose per-query script answers now / late / reordered / 2..6 times / never / for an unknown id, interleaves pongs, unknown constructors, tiny and truncated packets and unsolicited auth nonces, and drops connections (FIN/RST on the n-th query, while idle, during redial; failing redials). Invariants over the recorded history: a success equals F(own query) and is no phantom; an error is explained by the script; withheld answers time out by deadline + slack; all callers return (else a deadlock report with grouped stacks); the client is back with all connections within the documented time and later calls succeed; 200 further calls do not grow the goroutine count; a race report is a violation. Sampling of interleavings; schedule-dependent failures may not replay (full history is printed).",
+             note="Trusted: harness/internal/adnlsrv and the scenario oracle in harness/c12; a 5 ms heartbeat measures scheduler lag and scales or suspends real-time verdicts so that a loaded machine cannot produce a false alarm.",
+             design="DESIGN.md section 4 C12"),
  "C14": dict(technique="property-based testing: generated sends for every wallet version against a recording blockchain double; independent signature verification (reference hasher + crypto/ed25519), bit-flip sweeps, differential decode against a reference body layout writer/reader",
              text="For V3R1..V5R1 and HighLoadV2R2, keys, seqno/expiry over the full uint32 range, 0..limit(+1) messages of every kind and all build paths, the captured external message must verify under the wallet key only, stop verifying for flipped bits of the signed body and signature (exhaustive for small bodies), decode (by the reference and by tongo's decoders) to the requested ids, seqno, expiry, messages and modes in order, equal the cell the reference writes from the documented layout, and limit+1 messages must be refused without sending. Sampling; exhaustive bit flips for small bodies.",
              note="Trusted: harness/internal/walletref (layouts from contract documentation; code cells taken from tongo's table as data and anchored to ten published code hashes), R2 hasher, crypto/ed25519.",
